@@ -63,6 +63,29 @@ theorem accept_partial (C : Ciphers) (s : V3Session) (m : V3Msg) (pdu : Pdu)
       pdu.check s.requestId = true :=
   C04.deliver_sound_v3 C s m pdu h
 
+/-- **C10.impostor_not_delivered**: whatever the form of the message (clear text or encrypted, any flags,
+any MAC), a reply under another user name, from another engine than the one the session is bound to, or
+with another message id is never delivered -/
+theorem impostor_not_delivered (C : Ciphers) (s : V3Session) (m : V3Msg) (pdu : Pdu)
+    (hn : s.userName ≠ m.usm.userName ∨ (s.engineId ≠ [] ∧ m.usm.engineId ≠ s.engineId) ∨ m.msgId ≠ s.msgId) :
+    (unwrapV3 C s m).2 ≠ .ok (some pdu) := by
+  intro h
+  obtain ⟨h1, h2, h3, _⟩ := accept_partial C s m pdu h
+  rcases hn with hu | ⟨he1, he2⟩ | hm
+  · exact hu h1
+  · rcases h2 with h2 | h2
+    · exact he1 h2
+    · exact he2 h2
+  · exact hm h3
+
+/-- **C10.stale_request_not_delivered**: a non-Report PDU is delivered only when it answers the outstanding
+request id — a recorded reply to an earlier request cannot be replayed into a later one -/
+theorem stale_request_not_delivered (C : Ciphers) (s : V3Session) (m : V3Msg) (pdu : Pdu)
+    (hc : pdu.check s.requestId = false) : (unwrapV3 C s m).2 ≠ .ok (some pdu) := by
+  intro h
+  obtain ⟨_, _, _, h4⟩ := accept_partial C s m pdu h
+  rw [hc] at h4; cases h4
+
 /-- Reports are exempt from the request-id check (the property allows accepting them
 unauthenticated: that is how discovery works) -/
 theorem report_exempt (body : Bytes) (rid : Int) : (Pdu.report body).check rid = true := rfl
